@@ -5,7 +5,7 @@ From Coq Require Import String.
 From Coq Require Import List NArith ZArith Bool Arith Permutation.
 From Coq Require Import Init.Byte.
 From FFS Require Import Base.Res Base.Bytes AbiType.Syntax AbiType.Model Ffi.Model Ffi.Spec
-     Ffi.Proofs Ffi.ProofsSpec Ffi.ProofsRound Ffi.ProofsSig Ffi.ProofsOrder.
+     Ffi.Proofs Ffi.ProofsSpec Ffi.ProofsRound Ffi.ProofsSig Ffi.ProofsOrder Ffi.ProofsRound3.
 Import ListNotations.
 Local Open Scope string_scope.
 
@@ -203,4 +203,65 @@ Example C20_inconsistent_nonvacuous :
   pin_inconsistent (mkPin (str "x") true (Some (Some (Schema (str "string") None (det "uint256" None) [] None)))) = false /\
   consistent (Schema (str "object") None (det "tuple" None)
                 [(str "a", Some (Schema (str "boolean") None (det "uint256" (Some 0%Z)) [] None))] None) = false.
+Proof. vm_compute. repeat split. Qed.
+
+(* 0f. The two halves composed: the stand-alone helper applied to the entry that comes back from the
+       interface format returns the signature of the original entry (explicit widths, as in 0d);
+       functions, events and errors. *)
+Theorem C20_roundtrip_then_helper :
+  forall e,
+  forallb explicit_widths (e_inputs e) = true ->
+  (valid_params (e_inputs e) -> valid_params (e_outputs e) ->
+   exists m, convertABIFunctionToFFIMethod e = Ok m /\
+     forall pins rets, Forall2 faithful pins (m_params m) -> Forall2 faithful rets (m_returns m) ->
+       exists e', ConvertFFIMethodToABI (m_name m) pins rets = Ok e' /\
+                  SignatureCtx e = Ok (ABIMethodToSignature e') /\ ABIMethodToSignature e' = ABIMethodToSignature e) /\
+  (valid_params (e_inputs e) ->
+   exists m, convertABIEventToFFIEvent e = Ok m /\
+     forall pins, Forall2 faithful pins (m_params m) ->
+       exists e', ConvertFFIEventDefinitionToABI (m_name m) pins = Ok e' /\
+                  SignatureCtx e = Ok (ABIMethodToSignature e') /\ ABIMethodToSignature e' = ABIMethodToSignature e) /\
+  (valid_params (e_inputs e) ->
+   exists m, convertABIErrorToFFIError e = Ok m /\
+     forall pins, Forall2 faithful pins (m_params m) ->
+       exists e', ConvertFFIErrorDefinitionToABI (m_name m) pins = Ok e' /\
+                  SignatureCtx e = Ok (ABIMethodToSignature e') /\ ABIMethodToSignature e' = ABIMethodToSignature e).
+Proof. exact roundtrip_then_helper. Qed.
+Print Assumptions C20_roundtrip_then_helper.
+
+(* 3. Every parameter is converted on its own: the entry that comes back holds, position by position,
+      the conversion of each parameter -- a function of that parameter's (name, verdict, decoded
+      schema) alone, not of its position, its neighbours, the entry's name or kind, or of standing
+      among the inputs or the outputs -- and a definition is refused exactly when one of its
+      parameters is.  (What the repeated / renamed / reordered / concurrent conversions of the
+      correspondence run search a counterexample for on the implementation.) *)
+Theorem C20_per_parameter :
+  forall name params returns,
+  (forall e, ConvertFFIMethodToABI name params returns = Ok e <->
+     exists ins outs, Forall2 (fun p x => convertFFIParam p = Ok x) params ins /\
+                      Forall2 (fun p x => convertFFIParam p = Ok x) returns outs /\
+                      e = mkEntry EFunction name ins outs) /\
+  (forall e, ConvertFFIEventDefinitionToABI name params = Ok e <->
+     exists ins, Forall2 (fun p x => convertFFIParam p = Ok x) params ins /\ e = mkEntry EEvent name ins []) /\
+  (forall e, ConvertFFIErrorDefinitionToABI name params = Ok e <->
+     exists ins, Forall2 (fun p x => convertFFIParam p = Ok x) params ins /\ e = mkEntry EError name ins []) /\
+  ((forall e, ConvertFFIMethodToABI name params returns <> Ok e) <->
+     Exists (fun p => forall x, convertFFIParam p <> Ok x) (params ++ returns)) /\
+  ((forall e, ConvertFFIEventDefinitionToABI name params <> Ok e) <->
+     Exists (fun p => forall x, convertFFIParam p <> Ok x) params).
+Proof. exact conversion_per_parameter. Qed.
+Print Assumptions C20_per_parameter.
+
+(* non-vacuity: a good parameter converts to the same value wherever it stands; a bad one beside it
+   makes the definition an error *)
+Example C20_per_parameter_nonvacuous :
+  let det t := Some (mkDetails (str t) [] false None) in
+  let good := mkPin (str "a") true (Some (Some (Schema (str "string") None (det "string") [] None))) in
+  let bad := mkPin (str "b") true (Some (Some (Schema (str "string") None (det "uint256[]") [] None))) in
+  let x := FParam (str "a") (str "string") [] false [] in
+  convertFFIParam good = Ok x /\ is_ok (convertFFIParam bad) = false /\
+  ConvertFFIMethodToABI (str "f") [good] [good; good] = Ok (mkEntry EFunction (str "f") [x] [x; x]) /\
+  ConvertFFIEventDefinitionToABI (str "g") [good; good] = Ok (mkEntry EEvent (str "g") [x; x] []) /\
+  is_ok (ConvertFFIMethodToABI (str "f") [good; bad] []) = false /\
+  is_ok (ConvertFFIMethodToABI (str "f") [good] [good; bad]) = false.
 Proof. vm_compute. repeat split. Qed.
